@@ -46,6 +46,8 @@ def run(ck, F):
     R_master = ck.rule('C07.master', 'master() of a declaration is the first declaration of its decl-set (itself when it is '
                        'the first)', floor=24)
     R_factory = ck.rule('C07.own-factory', 'each make_* draws its declarations from its own decl_factory member', floor=8)
+    factory_used = {}
+    OVL = '$this.' + F.role_field('ipr::impl::Scope', lambda fl: fl['t'] == 'ipr::util::rb_tree::container<ipr::impl::Overload>', 'overload sets by name')
 
     seqname = None
     for f in makers:
@@ -63,7 +65,7 @@ def run(ck, F):
         # what is the declared type of request P?  Scope::make_alias keys on the initializer's type
         finds1 = [e for e in st1.effects if e[0] == 'chain_find']
         ins1 = [e for e in st1.effects if e[0] == 'tree_insert']
-        ok_keys = (len(ins1) == 1 and ins1[0][2] == ('param', 0) and contracts.render(ins1[0][1], st1, {}) == '$this.overloads'
+        ok_keys = (len(ins1) == 1 and ins1[0][2] == ('param', 0) and contracts.render(ins1[0][1], st1, {}) == OVL
                    and len(finds1) == 1)
         if ok_keys:
             k = finds1[0][2]
@@ -76,11 +78,18 @@ def run(ck, F):
         self_check_path(ck, F, S, f, inst + '/first', st1, first, None, 'new-name', R_once, R_decl, R_master, 0)
         # which decl_factory member is used
         farms = sorted({contracts.render(e[2], st1, {}) for e in st1.effects if e[0] == 'emplace'})
-        want = {'make_alias': 'aliases', 'make_var': 'vars', 'make_field': 'fields', 'make_bitfield': 'bitfields',
-                'make_typedecl': 'typedecls', 'make_fundecl': 'fundecls', 'make_primary_template': 'primary_maps',
-                'make_secondary_template': 'secondary_maps'}[f['name']]
-        ck.check(R_factory, inst, farms == [f'$this.{want}.decls', f'$this.{want}.master_info'],
-                 f'{inst} allocates from {farms}, expected its own factory {want}', loc=f['loc'], fn=f['id'])
+        # its own factory: the Scope member of type decl_factory<T> for the class T it returns (the two template
+        # factories share a type: each must keep to one member, and not the same one)
+        T = f.get('ret', '').replace('*', '').replace('&', '').replace('const ', '').strip()
+        cands = [fl['name'] for fl in F.rec['ipr::impl::Scope']['fields'] if fl['t'] == f'ipr::impl::decl_factory<{T}>']
+        used = sorted({x.split('.')[1] for x in farms if x.startswith('$this.') and x.count('.') >= 2})
+        good = len(farms) == 2 and len(used) == 1 and used[0] in cands and farms == [f'$this.{used[0]}.decls', f'$this.{used[0]}.master_info']
+        if good and len(cands) > 1:
+            other = factory_used.setdefault(T, {})
+            other[f['name']] = used[0]
+            good = len(set(other.values())) == len(other)
+        ck.check(R_factory, inst, good,
+                 f'{inst} allocates from {farms}, expected the two stores of its own decl_factory<{contracts.short(T)}> member ({cands})', loc=f['loc'], fn=f['id'])
         # second request from the state left by the first
         base_eff = len(st1.effects)
         base_c = len(st1.conds)
@@ -95,8 +104,8 @@ def run(ck, F):
                 continue
             conds = st2.conds[base_c:]
             found = [c for c, val in conds if isinstance(c, tuple) and c[0] == 'found']
-            f_ovl = any(c[0] == 'found' and val and contracts.render(c[1], st2, {}) == '$this.overloads' for c, val in conds)
-            f_ent = any(c[0] == 'found' and val and contracts.render(c[1], st2, {}) != '$this.overloads' for c, val in conds)
+            f_ovl = any(c[0] == 'found' and val and contracts.render(c[1], st2, {}) == OVL for c, val in conds)
+            f_ent = any(c[0] == 'found' and val and contracts.render(c[1], st2, {}) != OVL for c, val in conds)
             root = v2[1] if v2[0] == 'addr' else v2
             if f_ovl and f_ent:
                 kind = 'redeclaration'
@@ -148,12 +157,21 @@ def run(ck, F):
     ovl_obj = [e[4] for e in st1.effects if e[0] == 'tree_insert'][0]
     outs = S.run(ov['id'], this=ovl_obj, args=[('param', 100)], state=st1.fork())
     sel = []
+    first_of_set = 0
     for st, k, v in outs:
         if k != 'return':
             sel.append('throw')
             continue
         sel.append(contracts.render(v, st, {}))
-    good2 = len(sel) == 2 and 'absent' in sel and any(s.startswith('some(*') and ('at(0)' in s or 'get(0)' in s) for s in sel)
+        # the held declaration: element 0 of a sequence (the entry's decl-set), read by position
+        if isinstance(v, tuple) and v[0] == 'obj' and v[1] in st.heap and len(st.heap[v[1]].fields) == 1:
+            t = list(st.heap[v[1]].fields.values())[0]
+            while isinstance(t, tuple) and t and t[0] in ('addr', 'deref', 'after', 'castto'):
+                t = t[2] if t[0] in ('after', 'castto') else t[1]
+            if isinstance(t, tuple) and t and t[0] in ('call', 'vcall') and contracts.fn_simple(t[1]) in ('get', 'at', 'operator[]') \
+                    and len(t[3]) == 1 and t[3][0][0] == 'k' and t[3][0][1] == 0:
+                first_of_set += 1
+    good2 = len(sel) == 2 and 'absent' in sel and first_of_set == 1
     ck.check(R_sel, 'Overload::operator[]', good and good2,
              f'Overload::operator[] yields {sel} for (entry found, no entry); expected the decl-set element 0 / absent',
              loc=ov['loc'], fn=ov['id'], detail=sel)
